@@ -178,6 +178,59 @@ func (m *Model) ReachesExclusion(typ, rel string) bool {
 	return walk(RelKey(typ, rel))
 }
 
+// ReachesDirectAndComputedSame reports whether typ#rel, or a relation reachable from it, has both a
+// computed userset x and a direct type restriction T#x on its own type T (two edges to one node).
+func (m *Model) ReachesDirectAndComputedSame(typ, rel string) bool {
+	seen := map[string]bool{}
+	var computedOf func(us *openfgav1.Userset, out map[string]bool)
+	computedOf = func(us *openfgav1.Userset, out map[string]bool) {
+		switch u := us.GetUserset().(type) {
+		case *openfgav1.Userset_ComputedUserset:
+			out[u.ComputedUserset.GetRelation()] = true
+		case *openfgav1.Userset_Union:
+			for _, c := range u.Union.GetChild() {
+				computedOf(c, out)
+			}
+		case *openfgav1.Userset_Intersection:
+			for _, c := range u.Intersection.GetChild() {
+				computedOf(c, out)
+			}
+		case *openfgav1.Userset_Difference:
+			computedOf(u.Difference.GetBase(), out)
+			computedOf(u.Difference.GetSubtract(), out)
+		}
+	}
+	var walk func(k string) bool
+	walk = func(k string) bool {
+		if seen[k] {
+			return false
+		}
+		seen[k] = true
+		i := strings.Index(k, "#")
+		t, r := k[:i], k[i+1:]
+		us := m.Rewrite(t, r)
+		if us == nil {
+			return false
+		}
+		cs := map[string]bool{}
+		computedOf(us, cs)
+		for _, rr := range m.Restrictions(t, r) {
+			if rr.GetType() == t && rr.GetRelation() != "" && cs[rr.GetRelation()] {
+				return true
+			}
+		}
+		var es []depEdge
+		m.deps(t, us, false, &es, r)
+		for _, e := range es {
+			if walk(e.to) {
+				return true
+			}
+		}
+		return false
+	}
+	return walk(RelKey(typ, rel))
+}
+
 // IsTupleset reports whether type#relation is used as the tupleset of some tuple-to-userset rewrite.
 func (m *Model) IsTupleset(typ, rel string) bool { return m.tuplesets[RelKey(typ, rel)] }
 
